@@ -48,7 +48,7 @@ the instant the round starts - none for others, none at all if nobody is subscri
 theorem c17_round_destinations (g : EG) (sel : EvSel) :
     (g.runTask (.all sel)).pending = g.pending ++ g.subscribed.map (fun ep => NTask.single ep sel) ∧
     (g.runTask (.all sel)).sent = g.sent := by
-  simp [runTask]
+  simp [runTask, logRound]
 
 /-- explicit rounds are not even started while there are no subscribers -/
 theorem c17_no_clients_no_round (g : EG) (evs : List Nat) (h : g.hasClients = false) : g.notifyOnce evs = g := by
@@ -73,7 +73,7 @@ theorem c17_message (g : EG) (ep : Addr) (ev : Nat) (r : List Nat) (out : Outgoi
     (hb : ({ sid := g.serviceId, mid := 0x8000 ||| ev, cid := 0, sess := (assignOutgoing out (some ep)).1.2, iv := g.major,
              mt := .notification, payload } : Header).build = some b) :
     g.buildMsgs ep (ev :: r) out acc = g.buildMsgs ep r (assignOutgoing out (some ep)).2 (acc ++ b) := by
-  simp [buildMsgs, hv, hb]
+  simp [buildMsgs, hv, notif, hb]
 
 /-- SESSIONS: consecutive notifications to one destination take consecutive ids from that destination's
 counter (the counter is the C08 one: 1..0xFFFF, skipping 0) -/
